@@ -427,7 +427,19 @@ def _truthy(b, idx):
     return ([1, ["x"], "yes", 2.5] if b else [0, [], "", None])[idx % 4]
 
 
+_ASSERTIONS = {}
+
+
 def make_assertion(idx, spec):
+    """one decorated assertion object per (position, kind, argument), used by every simulation of the process
+    that asks for it -- as a module-level decorated function is"""
+    key = (idx, tuple(spec))
+    if key not in _ASSERTIONS:
+        _ASSERTIONS[key] = _make_assertion(idx, spec)
+    return _ASSERTIONS[key]
+
+
+def _make_assertion(idx, spec):
     kind, arg = spec
     name = "a%d" % idx
     if kind == "AP":
@@ -529,7 +541,11 @@ def run_sim_impl(sc, variant=None):
                 ids.append(b.add_node(PROTO[nd["ty"]], tuple(nd["pos"])))
             if ids != list(range(len(ids))):
                 CTX.trace.append("ids %s" % ids)
+            if sc.get("build_twice"):
+                b.build()                   # "build the scenario again": the first simulator is simply dropped
             sim = b.build()
+            if sc.get("poll_done"):
+                sim.is_simulation_done()    # a read-only query, asked before anything has run
             status = "done"
             drv = sc["drv"]
             if drv[0] in ("run", "runrun"):
@@ -551,6 +567,8 @@ def run_sim_impl(sc, variant=None):
                         status = "aborted"
                         break
                     CTX.trace.append("ret %s" % ("true" if r else "false"))
+                    if sc.get("poll_done"):
+                        sim.is_simulation_done()
                     if not r:
                         status = "done"
                 if drv[0] == "mixed" and status != "aborted":
